@@ -102,6 +102,16 @@ prop("C16", True,
      "sibling cross-check of encode/decode tables and operation sequences + role/provenance + dominating-condition rules over go/ssa",
      "DESIGN.md §2 C16")
 
+prop("C05", True,
+     "Static check of event fidelity for all inputs: (a) type-level serialisability of all ~320 sites that store a value into an event (dynamic types resolved through MakeInterface provenance across phis, locals, "
+     "callees, callers, maps incl. interface-dispatched fillers and JSON-born maps; JSON-safety by structural recursion; unresolved origins fail unless in the reviewed table), (b) the payload option stores string/hex/len of the "
+     "same captured slice, (c) Source/DestinationAddr key/role pairing in both the TCP and UDP arm, (d) MergeFrom guarded exactly by !Has(name), CopyFrom unconditional, (e) MarshalJSON/ToMap and the named channels' "
+     "snapshot callbacks copy every string key and never stop the range, MarshalJSON returns json.Marshal of a snapshot taken in the same call, Event.Store/Range/Has/Get forward directly to the sync.Map without extra state. "
+     "Does not decide run-time values (NaN) or transport inside back ends.",
+     "Trusts encoding/json on structurally safe types and third-party Marshal methods.",
+     "interprocedural type provenance of interface values + structural JSON-safety + shape rules over go/ssa",
+     "DESIGN.md §2 C05")
+
 PENDING = {
  "C01": "check not built yet in this revision (design: DESIGN.md §2 C01)",
 }
